@@ -48,6 +48,8 @@ let parse_op toks =
   | ["popf"] -> OPopF
   | ["popb"] -> OPopB
   | ["clear"] -> OClear
+  | ["xfo"; n; sl; rf] -> OXFO (z n, z sl, z rf)
+  | ["xbo"; n; sl; rf] -> OXBO (z n, z sl, z rf)
   | _ -> failwith "badop"
 let show_op m ob =
   Printf.sprintf "r=%s p=%s v=%s w=%s,%s a=%s f=%s g=%s d=%s"
